@@ -41,9 +41,10 @@ Fixpoint cins (c : cwrite) (l : list cwrite) : list cwrite :=
   | x :: r => if Z.ltb (cw_db c) (cw_db x) || (Z.eqb (cw_db c) (cw_db x) && Z.ltb (cw_id c) (cw_id x)) then c :: x :: r else x :: cins c r end.
 Definition csort (l : list cwrite) : list cwrite := fold_right cins [] l.
 
+(* the default partition, or one of the partitions "_default_<n>" that a partition-key collection is created with; a user partition
+   whose name merely contains "_default" is an ordinary partition *)
 Definition is_default (name : string) : bool :=
-  (* strings.Contains(name, "_default") for the names the generator uses *)
-  String.eqb name "_default".
+  String.eqb name "_default" || String.prefix "_default_" name.
 
 (* ---- the listing of collections (GetAllCollection) ---- *)
 Definition listed (s : script) : list cwrite :=
